@@ -67,19 +67,19 @@ Qed.
 
 Definition add_nl (b : string) : string := (b ++ String nl "")%string.
 
-Fixpoint split_shape (bs : list string) : list string :=
+Fixpoint chunk_shape (bs : list string) : list string :=
   match bs with
   | [] => []
   | [b] => [add_nl b]
-  | b :: t => b :: split_shape t
+  | b :: t => b :: chunk_shape t
   end.
 
-Lemma restore_split_shape bs : restore_newlines (split_shape bs) = map add_nl bs.
+Lemma restore_chunk_shape bs : restore_newlines (chunk_shape bs) = map add_nl bs.
 Proof.
   induction bs as [|b t IH]; [reflexivity|].
   destruct t as [|b2 t']; [reflexivity|].
-  change (split_shape (b :: b2 :: t')) with (b :: split_shape (b2 :: t')).
-  destruct (split_shape (b2 :: t')) as [|x L] eqn:E.
+  change (chunk_shape (b :: b2 :: t')) with (b :: chunk_shape (b2 :: t')).
+  destruct (chunk_shape (b2 :: t')) as [|x L] eqn:E.
   - destruct t'; discriminate.
   - change (restore_newlines (b :: x :: L)) with ((b ++ String nl "")%string :: restore_newlines (x :: L)).
     rewrite IH. reflexivity.
@@ -109,10 +109,10 @@ Proof. reflexivity. Qed.
 Lemma split_go_stream bs : bs <> [] -> Forall (fun b => plain_doc b = true) bs ->
   forall dr sr,
     split_go (join_docs (map add_nl bs)) "" MDoc dr sr =
-    Ok (rev dr ++ split_shape bs, rev sr ++ repeat (sep_text "") (List.length bs - 1)).
+    Ok (rev dr ++ chunk_shape bs, rev sr ++ repeat (sep_text "") (List.length bs - 1)).
 Proof.
   induction bs as [|b [|b2 t] IH]; intros Hne Hp dr sr; [congruence| |].
-  - inv Hp. cbn [map join_docs split_shape List.length repeat Nat.sub].
+  - inv Hp. cbn [map join_docs chunk_shape List.length repeat Nat.sub].
     destruct (plain_doc_mode b H1) as (m & Hm & Hk & Hok).
     assert (Hq : mode_after (add_nl b) MDoc = Some (MNl 0)).
     { unfold add_nl. rewrite mode_after_app, Hm. destruct Hk as [->|[k ->]]; cbn; rewrite ?Ascii.eqb_refl; reflexivity. }
@@ -127,8 +127,8 @@ Proof.
     destruct (split_go_app b (nl_sep ++ join_docs (map add_nl (b2 :: t))) "" MDoc dr sr m I Hm) as (a' & E1 & E2 & _).
     rewrite E1, (split_go_sep _ a' m _ _ Hk), E2.
     cbn [consumed str_rev str_rev_acc append].
-    rewrite IH by (auto; congruence). cbn [rev split_shape]. rewrite <- !app_assoc. cbn [app].
-    destruct t; cbn [split_shape List.length repeat Nat.sub app]; rewrite ?Nat.sub_0_r; reflexivity.
+    rewrite IH by (auto; congruence). cbn [rev chunk_shape]. rewrite <- !app_assoc. cbn [app].
+    destruct t; cbn [chunk_shape List.length repeat Nat.sub app]; rewrite ?Nat.sub_0_r; reflexivity.
 Qed.
 
 Lemma crlf_norm_no_cr s : no_cr s = true -> crlf_norm s = s.
@@ -167,7 +167,7 @@ Proof.
     + unfold add_nl in J. destruct b; discriminate.
     + unfold add_nl in J. destruct b; discriminate.
   - rewrite <- J. rewrite (split_go_stream bs Hbne Hbs [] []). cbn [rev app].
-    rewrite restore_split_shape. reflexivity.
+    rewrite restore_chunk_shape. reflexivity.
 Qed.
 
 (* ---------- the round trip on streams of stable documents ---------- *)
